@@ -253,7 +253,9 @@ def result_fp(res):
 
 
 def sort_key(x):
-    return repr(x)
+    # CR-normalised, so that the known CR->LF defect does not change the
+    # pairing of the elements of two result lists
+    return repr(crnorm(x))
 
 
 def unordered(rfp):
